@@ -725,3 +725,71 @@ def decimal_op_sites(F, bodies):
                 yield b, i, t
             elif is_decimal_sum(cal) and any("Decimal" in g for g in (t.get("gargs") or []) + [t.get("dty", "")]):
                 yield b, i, t
+
+
+# --------------------------------------------------------------------------- Decimal division guards
+
+def decimal_division_sites(F, bodies):
+    """yield (body, bb, term, divisor-term, discharge-or-None) for Decimal `/`, `/=`, `%` in user-written code"""
+    from roles import guards_of, truth
+    for b in bodies:
+        if not user_written(F, b):
+            continue
+        tb = None
+        for i, t in b.calls():
+            k = is_decimal_arith(t["callee"]) or is_decimal_arith_assign(t["callee"])
+            if k not in ("Div", "DivAssign", "Rem", "RemAssign"):
+                continue
+            tb = tb or Terms(F, b, inline_depth=0)
+            dv = tb.operand(t["args"][1])
+            yield b, i, t, dv, _discharge_division(F, b, tb, i, t, dv)
+
+
+def _nonzero_guard(cond, val, dv):
+    """switch condition `cond` taking branch value `val` implies dv != 0"""
+    from roles import truth
+    tv = truth(val)
+    z = ("const", "Decimal::ZERO")
+    if isinstance(cond, tuple) and cond and cond[0] == "cmp":
+        op, a, c = cond[1], cond[2], cond[3]
+        if c == z and a == dv:
+            pass
+        elif a == z and c == dv:
+            op = {"Lt": "Gt", "Gt": "Lt", "Le": "Ge", "Ge": "Le"}.get(op, op)
+        else:
+            return False
+        if op == "Ne" and tv:
+            return True
+        if op == "Eq" and not tv:
+            return True
+        if op in ("Gt", "Lt") and tv:
+            return True
+        if op in ("Le", "Ge") and not tv:
+            return True
+        return False
+    if isinstance(cond, tuple) and cond and cond[0] == "call" and parse_callee(cond[1])[2] == "is_zero" and cond[2] and cond[2][0] == dv:
+        return not tv
+    return False
+
+
+def _discharge_division(F, b, tb, i, t, dv):
+    from roles import guards_of
+    for cond, val, s in guards_of(b, tb, i):
+        if _nonzero_guard(cond, val, dv):
+            return "dominated by a `divisor != 0` test on the same value"
+    # divisor read from an element of an iterator filtered on `field > 0`
+    if isinstance(dv, tuple) and dv and dv[0] == "field":
+        fname = dv[2]
+        for x in subterms(dv):
+            if isinstance(x, tuple) and x and x[0] == "var" and len(x) > 2:
+                for y in subterms(x[2]):
+                    if isinstance(y, tuple) and y and y[0] == "call" and parse_callee(y[1])[2] == "filter" and len(y[2]) == 2:
+                        clo = y[2][1]
+                        if isinstance(clo, tuple) and clo[0] == "closure" and clo[1] in F.bodies:
+                            ct = Terms(F, F.bodies[clo[1]], inline_depth=0)
+                            r = ct.local(0)
+                            for z in subterms(r):
+                                if isinstance(z, tuple) and z and z[0] == "cmp" and z[1] == "Gt" and z[3] == ("const", "Decimal::ZERO") and \
+                                        isinstance(z[2], tuple) and z[2][0] == "field" and z[2][2] == fname:
+                                    return f"the element comes from an iterator filtered on `{fname} > 0`"
+    return None
